@@ -249,8 +249,10 @@ def attribAt (instrs : List NInstr) (b : Basis) (q : Option Nat) (t : Int) : Lis
 
 /-! #### The accumulation rule `_add_channel_samples`
 
-Amplitudes and detunings add up (`+=`).  The phase of a channel is painted over its whole
-duration, so the patched `to_nested_dict` does not simply add phases:
+Amplitudes and detunings add up (`+=`).  In the committed tree the phases add up as well
+(`entryPhaseSum`; finding F23 / F-C06-1: a channel's phase is painted over its whole duration,
+so the sum is wrong as soon as two channels write one entry).  The repair under discussion
+(`_add_channel_samples`) does not simply add phases:
 `phase = phase * (1 - only_new) + cs.phase * (1 - only_prev)` where `only_new` /
 `only_prev` say that only the added channel / only the entry so far has a non-zero amplitude.
 Structurally the phase sample of an entry is the list of channels whose (painted) phase
@@ -264,12 +266,15 @@ the entry sums so far, `prevOn` / `newOn` the two `!= 0` tests, `k` the added ch
 def mergePhase (prev : List Nat) (prevOn newOn : Bool) (k : Nat) : List Nat :=
   (if newOn && !prevOn then [] else prev) ++ (if prevOn && !newOn then [] else [k])
 
-/-- The phase sample of an entry after the channels `writers` (in execution order) were added:
-(channels whose phases are summed, amplitude non-zero). -/
-def entryPhase (on : Nat → Bool) (writers : List Nat) : List Nat × Bool :=
-  writers.foldl (fun acc k => (mergePhase acc.1 acc.2 (on k) k, acc.2 || on k)) ([], false)
+/-- One `_add_channel_samples` on the pair (channels whose phases are summed, amplitude non-zero). -/
+def phaseStep (on : Nat → Bool) (acc : List Nat × Bool) (k : Nat) : List Nat × Bool :=
+  (mergePhase acc.1 acc.2 (on k) k, acc.2 || on k)
 
-/-- The rule before the patch (`d[..][PHASE] += cs.phase`): every writer's phase is summed. -/
+/-- The phase sample of an entry after the channels `writers` (in execution order) were added. -/
+def entryPhase (on : Nat → Bool) (writers : List Nat) : List Nat × Bool :=
+  writers.foldl (phaseStep on) ([], false)
+
+/-- The committed rule (`d[..][PHASE] += cs.phase`): every writer's phase is summed. -/
 def entryPhaseSum (writers : List Nat) : List Nat := writers
 
 /-- The phase sample at `t` of entry `(b, q)` of `to_nested_dict`. -/
